@@ -85,7 +85,7 @@ def gen_config(rng, mech, attrs, shape):
             W.append(tuple(attrs[:3]))
         wts = [float(gen.pick(rng, [1.0, 1.0, 0.5, 2.0, 3.0])) for _ in W]
         n1 = len(set(a for cl in W for a in cl))
-        cfg.update(workload=list(zip(W, wts)), rounds=gen.pick(rng, [None, None, int(2 * n1 + 2), int(2 * len(attrs) + 3), int(30 * len(attrs))]),
+        cfg.update(workload=list(zip(W, wts)), rounds=gen.pick(rng, [None, None, int(2 * n1 + 2), int(2 * len(attrs) + 3), int(30 * len(attrs)), int(n1), int(n1 + 1)]),   # n1: the one-way stage alone takes 0.9 rho
                    max_model_size=float(gen.pick(rng, [80, 80, 0.001])), pass_prng=bool(rng.rand() < 0.3))
     elif mech == 'mwem':
         noise = gen.pick(rng, ['gaussian', 'gaussian', 'laplace'])
